@@ -146,6 +146,7 @@ class Engine:
         self.typeids = {}
         self.budget_s = 1e9
         self.watch_all = False
+        self.only_lock = False
         self.harness_funcs = set()
         self.watch_enabled = False
         self.harness_globals = set()
@@ -812,7 +813,7 @@ class Engine:
             if res.paths >= self.max_paths:
                 res.errors.append("path budget exhausted (%d)" % self.max_paths)
                 break
-            if len(res.cex) >= self.cex_limit:
+            if len([c for c in res.cex if not self.only_lock or c.get("kind") == "lock"]) >= self.cex_limit:
                 raise Budget("%d candidate counterexamples collected; exploration stopped to replay them" % len(res.cex))
             self.cur = st
             try:
